@@ -53,6 +53,15 @@ func (s *Site) CalleeName() string {
 	return ""
 }
 
+// FunText renders the callee expression as written ("led.balances.Set"); use
+// it only where types cannot resolve the callee (.gno imports).
+func (s *Site) FunText() string {
+	if s.Call == nil {
+		return ""
+	}
+	return types.ExprString(s.Call.Fun)
+}
+
 var stdNoReturn = map[string]bool{
 	"os.Exit": true, "log.Fatal": true, "log.Fatalf": true, "log.Fatalln": true,
 	"log.Panic": true, "log.Panicf": true, "log.Panicln": true, "runtime.Goexit": true,
